@@ -292,6 +292,28 @@ func burstMain(p BurstParams) {
 		if cycles == bursts+1 && len(ares) >= 1 && len(brss) >= 2 && brss[1]-ares[0] < 1000 && brss[1] >= ares[0] {
 			why = " [second Rebalance() queued on the rebalance lock behind the first rebalance of the session]"
 		}
+		if why == "" && cycles == bursts+1 {
+			// a cycle that no notification started and that does not follow a re-open immediately: it was started
+			// by a timer. Rebalance()'s debounce branch, finding the timer of the PREVIOUS cycle already fired
+			// (the current cycle is still closing the stream and has not armed its own timer yet), re-schedules
+			// Rebalance() itself one delay later, which then runs as a full extra cycle.
+			for _, b := range brss {
+				started, afterARE := false, false
+				for _, nt := range ns {
+					if nt.took && nt.at <= b && b-nt.at < int64(time.Millisecond) {
+						started = true
+					}
+				}
+				for _, a := range ares {
+					if b >= a && b-a < 1000 {
+						afterARE = true
+					}
+				}
+				if !started && !afterARE {
+					why = " [a cycle that no notification started: Rebalance() re-scheduled by the debounce branch, which found a timer that had already fired, ran as a full extra cycle one delay later]"
+				}
+			}
+		}
 		vrt.Failf("%s: %d burst(s) of notifications but the stream was closed and re-opened %d time(s) (%s)%s", d, bursts, cycles, seq, why)
 	}
 	// the re-open does not start before last notification + delay (immediately for dynamic membership)
